@@ -243,14 +243,32 @@ class Config:
                     dfs.append(np.array(b, float).reshape(len(b), self.n))
                 exp, failed = M.combine(js_, self.variant)
                 vals = []
-                for with_init in (False, True):
-                    f = self.fresh()
-                    if with_init:
-                        f.initialize()
-                    if mode:
-                        f.set_model(self.eqs[mode])
-                    self.reset_calls()
-                    vals.append(f.evaluate(x.copy()))
+                try:
+                    for with_init in (False, True):
+                        f = self.fresh()
+                        if with_init:
+                            f.initialize()
+                        if mode:
+                            f.set_model(self.eqs[mode])
+                        self.reset_calls()
+                        vals.append(f.evaluate(x.copy()))
+                except Horizon:
+                    raise
+                except Exception as e:  # noqa
+                    # a fresh objective that cannot be switched / evaluated
+                    self.problems.append((
+                        f"fresh object|raises {type(e).__name__}",
+                        f"mode={'raw' if mode == 0 else f'model m{mode}'} "
+                        f"x={XNAMES[k]}: a freshly created objective raises "
+                        f"{type(e).__name__}: {e} "
+                        f"({'after' if len(vals) else 'without'} "
+                        "initialize())"))
+                    self.val[(mode, k)] = None
+                    if mode == 0:
+                        self.sc[k] = scs
+                        self.df[k] = dfs
+                        self.rows[k] = sum(len(a) for a in scs)
+                    continue
                 v = vals[0]
                 what = f"mode={'raw' if mode == 0 else f'model m{mode}'} " \
                        f"x={XNAMES[k]} {x.tolist()}"
